@@ -41,7 +41,7 @@ class Plan(object):
         self.registered_cleanups = []   # (id, owner-layer)
 
 
-_EXC = {"Exception": RuntimeError, "AssertionError": AssertionError}
+_EXC = {"Exception": RuntimeError, "AssertionError": AssertionError, "KeyboardInterrupt": KeyboardInterrupt}
 
 
 def make_cleanup(plan, cid, raises):
@@ -74,7 +74,9 @@ def make_hooks(plan):
                 plan.registered_cleanups.append(cid)
                 context.add_cleanup(make_cleanup(plan, cid, c.get("raises")))
             exc = plan.hook_faults.get(k)
-            if exc:
+            if exc == "abort":
+                context.abort(reason="hook #%d aborts the run" % k)
+            elif exc:
                 raise _EXC[exc]("hook fault #%d in %s" % (k, name))
         hook.__name__ = name
         return hook
@@ -97,6 +99,8 @@ def _table_cells(table):
 
 
 def _bad_converter(text):
+    if text.startswith("k"):
+        raise KeyError(text)        # a converter may raise anything (e.g. an enum lookup)
     raise ValueError("cannot convert %r" % text)
 
 
@@ -161,6 +165,10 @@ def step_definitions(plan):
         enter(context, uid)
         raise KeyboardInterrupt()
 
+    def do_abort(context, uid):
+        enter(context, uid)
+        context.abort(reason="step %s aborts the run" % uid)
+
     def do_convert(context, uid, n):
         enter(context, uid)     # must never be reached: conversion of n fails
 
@@ -200,7 +208,7 @@ def step_definitions(plan):
 
     table = [("passes", do_pass), ("fails", do_fail), ("raises", do_raise),
              ("pends", do_pending), ("skips", do_skip), ("interrupts", do_interrupt),
-             ("acts", do_act), ("nests", do_nest)]
+             ("acts", do_act), ("nests", do_nest), ("aborts", do_abort)]
     defs = []
     for phrase, func in table:
         defs.append((u"step {uid:w} %s" % phrase, func))
